@@ -207,6 +207,10 @@ def all_jobs():
                       props=['C01', 'C11'], pretty='bloc::FunctorManager::' + fn, canaries=['normal'], unwind=6, bounded_inputs=True, defines=['JOB_' + fn.upper()],
                       unwind_why='declaration list of at most 3 functions',
                       structs=DEFAULT_STRUCTS + [STD_STRING, 'bloc::FunctorManager', 'bloc::FunctorManager::Entry', 'bloc::Functor', 'bloc::Context', 'bloc::Symbol']))
+    mg = '_ZNK4bloc22MemberMETHODExpression5valueERNS_7ContextE'
+    J.append(dict(id='member_method', src='blocc/member/member_complex.cpp', contract='member_method.c', enforce=mg, roots=[mg], replace=[VCALL_VALUE, V_CLEAR, CTX_ALLOCATE],
+                  cut=[VCALL_VALUE, V_CLEAR, CTX_ALLOCATE, V_MOVE_ASSIGN, RTE_CTOR, RTE_CTOR_S], props=['C01', 'C04', 'C17'], pretty='bloc::MemberMETHODExpression::value', canaries=['normal', 'exceptional'],
+                  structs=DEFAULT_STRUCTS + ['bloc::Context', 'bloc::Complex', 'bloc::MemberMETHODExpression', 'bloc::PLUGGED_MODULE', 'bloc::PluginManager', 'PLUGIN_METHOD', 'bloc::plugin::PluginBase', 'bloc::Expression']))
     return J
 
 def known_findings():
